@@ -258,11 +258,24 @@ def _np_cross(a, b, axis=-1, axisa=-1, axisb=-1, axisc=-1):
     return np.moveaxis(out, -1, axisc if axis == -1 else axis)
 
 
+def _plain(a):
+    if isinstance(a, SymArray):
+        return a.view(np.ndarray)
+    a = np.asarray(a)
+    if a.dtype == object:
+        return a
+    return lift_array(a)
+
+
 def _np_dot(a, b, out=None):
-    a, b = sym_view(a), sym_view(b)
-    if a.ndim == 1 and b.ndim == 1:
-        return _sum_all(a * b)
-    r = np.tensordot(a, b, axes=([-1], [0 if b.ndim == 1 else -2]))
+    r = np.dot(_plain(a), _plain(b))
+    if isinstance(r, np.ndarray):
+        r = r.view(SymArray)
+    if out is not None:
+        if not isinstance(out, np.ndarray) or out.dtype != object:
+            raise S.SymError("symbolic dot result written into a numeric array")
+        out[...] = r
+        return out
     return r
 
 
